@@ -62,6 +62,8 @@ type Program struct {
 	NumFuncs   int
 	NumBlocks  int
 	NumInstrs  int
+
+	ctrl map[*ssa.BasicBlock][]ctrlEdge // cache of the branch edges dominating a block
 }
 
 // Load loads dir under cfg.  Any type error is returned as an error: an
